@@ -220,6 +220,8 @@ namespace sim
     std::string   v_msg;
     std::uint32_t v_props;
     std::uint32_t ctx_props; // extra properties that own violations raised inside the current op
+    std::uint32_t universe_props; // extra owners of wrong-result (model.*) violations in this universe:
+                                  // C13 for trivially copyable elements, C12 for narrow size types
 
     // --- terminate attribution
     const char *cur_op_name;
@@ -236,7 +238,7 @@ namespace sim
     state (void)
       : in_op (false), armed (false), mask (0), countdown (-1), mask2 (0), j (-1), fired (0),
         eligible1 (0), eligible2 (0), throwing_events (0), had_plan (false), eligible1_last (0), eligible2_last (0), count_mask2 (0), unwinding (false), elog_overflow (false),
-        deallocs (0), violated (false), v_props (0), ctx_props (0), cur_op_name (""),
+        deallocs (0), violated (false), v_props (0), ctx_props (0), universe_props (0), cur_op_name (""),
         cur_op_index (-1), cur_noexcept_declared (false)
     {
       fired_kind[0] = fired_kind[1] = -1;
@@ -287,6 +289,8 @@ namespace sim
     std::vsnprintf (buf, sizeof (buf), fmt, ap);
     va_end (ap);
     std::uint32_t props = props_of_oracle (oracle) | g.ctx_props;
+    if (0 == std::strncmp (oracle, "model.", 6))
+      props |= g.universe_props;
     if (g.fired > 0)
       props |= pbit (P06); // raised while unwinding from an injected fault
     if (g.violated)
